@@ -188,6 +188,16 @@ func runLife(c LifeCase) core.Result {
 	}
 	var st torrent.Stats
 	stats := func() bool { return call("Stats()", func() { st = tor.Stats() }) }
+	verifyWrites := 0
+	writeCount := func() int {
+		memMu.Lock()
+		m := mem
+		memMu.Unlock()
+		if m == nil {
+			return 0
+		}
+		return len(m.Writes())
+	}
 	image := func() (correct int, complete bool) {
 		memMu.Lock()
 		m := mem
@@ -316,6 +326,7 @@ func runLife(c LifeCase) core.Result {
 			if stats() {
 				before = st.Status.String()
 			}
+			verifyWrites = writeCount()
 			if !call("Verify()", func() { _ = tor.Verify() }) {
 				return core.Failf("%s: %s", name, hang)
 			}
@@ -329,9 +340,15 @@ func runLife(c LifeCase) core.Result {
 					}
 					return core.Failf("%s: 15 s after Verify() (issued while %s) the torrent is %v with %d/%d pieces, not Stopped: a verification request must end with the torrent stopped", name, before, st.Status, st.Pieces.Have, st.Pieces.Total)
 				}
+				// a piece write that was in flight when the torrent stopped is not cancelled and may land while the
+				// verification runs or after it: then the verdict may lag behind storage, never run ahead of it
+				late := writeCount() != verifyWrites
 				n, _ := image()
-				if int(st.Pieces.Have) != n {
-					return core.Failf("%s: verification finished with %d pieces marked, storage holds %d correct pieces", name, st.Pieces.Have, n)
+				if int(st.Pieces.Have) > n || (!late && int(st.Pieces.Have) != n) {
+					return core.Failf("%s: verification finished with %d pieces marked, storage holds %d correct pieces (writes that landed since the request: %d)", name, st.Pieces.Have, n, writeCount()-verifyWrites)
+				}
+				if late {
+					lab["write-landed-during-verification"] = true
 				}
 				dirty = false
 				verifyPending = false
@@ -431,9 +448,13 @@ func runLife(c LifeCase) core.Result {
 			return core.Failf("the last command was verify; 15 s later the torrent is %v with %d/%d pieces, not Stopped (hang: %q)", st.Status, st.Pieces.Have, st.Pieces.Total, hang)
 		}
 		if mutSeq == verifyMutSeq { // the files were not touched after the verification was requested
+			late := writeCount() != verifyWrites
 			n, _ := image()
-			if int(st.Pieces.Have) != n {
-				return core.Failf("verification finished with %d pieces marked, storage holds %d correct pieces", st.Pieces.Have, n)
+			if int(st.Pieces.Have) > n || (!late && int(st.Pieces.Have) != n) {
+				return core.Failf("verification finished with %d pieces marked, storage holds %d correct pieces (writes that landed since the request: %d)", st.Pieces.Have, n, writeCount()-verifyWrites)
+			}
+			if late {
+				lab["write-landed-during-verification"] = true
 			}
 			dirty = false
 		}
